@@ -249,7 +249,7 @@ def jacobian_sweep(ctx, S, rng, tier):
 
 
 def run(tier, seed):
-    ctx = core.Ctx(PROP, tier, seed, "proof", ["C12", "C12b", "C12c", "C10"])
+    ctx = core.Ctx(PROP, tier, seed, "proof", ["C12", "C12b", "C12c", "C10", "C10b"])
     ctx.axioms = core.audit(ctx.modules)
     import pyqsp.sym_qsp_opt as S
     q = tier == "quick"
